@@ -40,13 +40,23 @@ fn nest_program(cx: &mut Case) -> Prog {
     for _ in 0..depth {
         // each element gets a fresh small budget
         g.set_budget(5);
-        let e = g.expr(&ty, &ty, 21);
+        // every few elements go through disconnect, with a (possibly wide) intermediate type c
+        // that the disconnected branch t : c -> d shrinks to a narrow d
+        let e = if g.src.chance(50) {
+            let d = match g.src.below(3) {
+                0 => RTy::unit(),
+                1 => RTy::two(),
+                _ => gen_ty(g.src, 12, 3),
+            };
+            g.endo_via_disconnect(&ty, &d, 21)
+        } else {
+            g.expr(&ty, &ty, 21)
+        };
         let left = match shape {
             0 => true,
             1 => false,
             _ => g.src.bool(),
         };
-        // occasionally go through disconnect: disconnect s t : a -> b1 * d; use b = ty * unit then take
         acc = if left { g.nodes_push_comp(acc, e, &ty) } else { g.nodes_push_comp(e, acc, &ty) };
     }
     let p = g.finish(acc);
@@ -97,8 +107,95 @@ fn check_bounds(redeem: &simplicity::RedeemNode, obs: &Observed, what: &str) -> 
     Ok(())
 }
 
+/// 1 -> 2^(2^k1) x 2^(2^k2) [x 2^(2^k3)]: a pair of bomb stages; the *target* is wide, so that
+/// the machine's limit applies to the sum of the io widths and the extra cells.
+fn boundary_program(ks: &[usize]) -> Prog {
+    let mut nodes = vec![];
+    let mut push = |ir: Ir| {
+        nodes.push(ir);
+        nodes.len() - 1
+    };
+    let mut stages = vec![];
+    for k in ks {
+        let mut acc = push(Ir::Word(0, vec![true]));
+        for _ in 0..*k {
+            let i1 = push(Ir::Iden);
+            let i2 = push(Ir::Iden);
+            let d = push(Ir::Pair(i1, i2));
+            acc = push(Ir::Comp(acc, d));
+        }
+        stages.push(acc);
+    }
+    let mut root = stages.pop().unwrap();
+    while let Some(s) = stages.pop() {
+        root = push(Ir::Pair(s, root));
+    }
+    Prog { nodes, root, family: Family::Core }
+}
+
+/// The machine's hard limit on cells, as the library itself reports it when it refuses a
+/// program that is far too large (so that a legitimate change of the limit is followed).
+fn learned_max_cells() -> Option<usize> {
+    thread_local! {
+        static MAX: Option<usize> = {
+            let prog = bomb_program(50);
+            match build_redeem(&prog, true, &HashMap::new()) {
+                Ok(r) => match simplicity::BitMachine::for_program(&r) {
+                    Err(simplicity::bit_machine::LimitError::MaxCellsExceeded { max, .. }) => Some(max),
+                    _ => None,
+                },
+                Err(_) => None,
+            }
+        };
+    }
+    MAX.with(|m| *m)
+}
+
+fn boundary_case(cx: &mut Case) -> CaseResult {
+    cx.label("mode: bombs around the cell limit (refusal)");
+    let n = 1 + cx.src.below(3);
+    let ks: Vec<usize> = (0..n).map(|_| cx.src.range(24, 32)).collect();
+    cx.fp.write_u64(0xb0b1);
+    for k in &ks {
+        cx.fp.write_u64(*k as u64);
+    }
+    let max = match learned_max_cells() {
+        Some(m) => m,
+        None => {
+            cx.label("boundary: limit not reported by the library (not asserted)");
+            return Ok(());
+        }
+    };
+    let prog = boundary_program(&ks);
+    let redeem = match build_redeem(&prog, false, &HashMap::new()) {
+        Ok(r) => r,
+        Err(BuildError::Type(_)) | Err(BuildError::Finalize(_)) => {
+            cx.label("bomb: rejected before the machine");
+            return Ok(());
+        }
+    };
+    let b = redeem.bounds();
+    let total = redeem.arrow().source.bit_width().saturating_add(redeem.arrow().target.bit_width()).saturating_add(b.extra_cells);
+    cx.set_sample(|| json!({"mode": "boundary bomb", "stages (doublings)": ks, "target_bits": redeem.arrow().target.bit_width(), "extra_cells": b.extra_cells, "total": total, "limit": max}));
+    if total <= max {
+        // the machine may be built (and would allocate total/8 bytes): not asserted, not tried
+        cx.label("boundary: total bound <= limit (not asserted)");
+        return Ok(());
+    }
+    cx.label("boundary: total bound > limit");
+    cx.label_if(b.extra_cells <= max && redeem.arrow().target.bit_width() <= max, "boundary: every single quantity <= limit, only the sum exceeds it");
+    cx.nontrivial = true;
+    match simplicity::BitMachine::for_program(&redeem) {
+        Err(_) => Ok(()),
+        Ok(_) => Err(format!("BitMachine::for_program built a machine for a program whose bounds exceed the hard limit: io {} + extra_cells {} = {} > {} (stages of 2^k bits, k = {:?})", redeem.arrow().source.bit_width() + redeem.arrow().target.bit_width(), b.extra_cells, total, max, ks)),
+    }
+}
+
 pub fn case(cx: &mut Case) -> CaseResult {
-    let mode = cx.src.weighted(&[6, 5, 1]);
+    let mode = cx.src.weighted(&[60, 50, 8, 6]);
+    if mode == 3 {
+        return boundary_case(cx);
+    }
     if mode == 2 {
         // refusal clause
         let k = cx.src.range(46, 70);
